@@ -2,6 +2,7 @@ package checks
 
 import (
 	"fmt"
+	"strings"
 	"time"
 
 	jd "github.com/josephburnett/jd/v2"
@@ -17,8 +18,18 @@ func init() {
 		Rule: "all ordered pairs (a,b) of each listed universe x each option set; a.Diff(b,o) is applied to a as returned (in memory) " +
 			"and, separately, after Render/ReadDiffString; non-trivial = the diff is non-empty; distinct = distinct (options,a,b)",
 		Bounds: pairBounds(allOptSets),
-		Enum:   enumPairs("c01", allOptSets),
-		Run:    runC01,
+		Enum: func(tier string, e *engine.Emitter) {
+			// chains: a is itself the live result of a Patch (built under each reading), the diff is taken from it and
+			// applied to it, and the live result of that is diffed and patched back to a
+			lv := c05LiveDocs()
+			for _, con := range []string{"none", "SET", "MULTISET", "replace:none", "replace:SET"} {
+				for _, o := range []string{"none", "SET", "MULTISET"} {
+					pairs(e, "c01chain/"+con+":"+o, "chain/"+con+"->"+o, lv, lv)
+				}
+			}
+			enumPairs("c01", allOptSets)(tier, e)
+		},
+		Run: runC01,
 		Required: func(string) []string {
 			return []string{"multi-hunk", "single-hunk", "empty-diff"}
 		},
@@ -29,7 +40,11 @@ func init() {
 }
 
 func runC01(c *engine.Case) engine.Result {
-	o := impl.Options(optOf(c.Kind))
+	optName := optOf(c.Kind)
+	if strings.HasPrefix(c.Kind, "c01chain/") {
+		optName = c.Kind[strings.LastIndex(c.Kind, ":")+1:]
+	}
+	o := impl.Options(optName)
 	bV := ref.MustParse(c.B)
 	res := engine.Result{}
 	var fail string
@@ -38,6 +53,15 @@ func runC01(c *engine.Case) engine.Result {
 	p := impl.Guard(func() {
 		a := impl.Read(c.A)
 		b := impl.Read(c.B)
+		chain := strings.HasPrefix(c.Kind, "c01chain/")
+		if chain {
+			con := strings.TrimPrefix(c.Kind[:strings.LastIndex(c.Kind, ":")], "c01chain/")
+			if l, ok := impl.Live(c.A, con); ok {
+				if lv, err := impl.ToV(l); err == nil && ref.Equal(lv, ref.MustParse(c.A), o.Reading) {
+					a = l
+				}
+			}
+		}
 		d := a.Diff(b, o.Opts...)
 		nh = len(d)
 		text = d.Render()
@@ -62,6 +86,21 @@ func runC01(c *engine.Case) engine.Result {
 		if !ref.Equal(rv, bV, o.Reading) {
 			fail = fmt.Sprintf("in-memory Patch result %s is not b under the %v reading (reference)", ref.JSON(rv), o.Reading)
 			return
+		}
+		if chain {
+			// second hop, from the live result back to a
+			a2 := impl.Read(c.A)
+			back, err := r.Patch(r.Diff(a2, o.Opts...))
+			res.Transitions += 2
+			if err != nil {
+				fail = "second hop: Patch(r, r.Diff(a)) on the live result r failed: " + err.Error()
+				return
+			}
+			bv, err := impl.ToV(back)
+			if err != nil || !ref.Equal(bv, ref.MustParse(c.A), o.Reading) {
+				fail = fmt.Sprintf("second hop: the live result patched back gives %s, not a", back.Json())
+			}
+			return // (the text carrier is the subject of the ordinary legs, on a as read)
 		}
 		// carrier 2: the rendered text
 		d2, err := jd.ReadDiffString(text)
